@@ -1858,7 +1858,10 @@ class _gpg_multivalued(_multivalued):
             sequence = args[0]
         except IndexError:
             sequence = kwargs.get("sequence", None)
-        strict = kwargs.get("strict", None)
+        try:
+            strict = args[4]
+        except IndexError:
+            strict = kwargs.get("strict", None)
 
         if sequence is not None:
             # If the input is a unicode object or a file opened in text mode,
